@@ -63,9 +63,11 @@ def process_signature(app, what, name, obj, options,
             pass
     try:
         forged_sig = specifiers.signature(obj)
-    except (TypeError, ValueError):
+    except (TypeError, ValueError, AttributeError):
         # inspect.signature raises ValueError if obj is callable but it can't
         # determine a signature, eg. built-in objects
+        # AttributeError: a forwards_to_method declaration looks its target
+        # up on the instance, and the placeholder bound above is not one
         return sig, return_annotation
     try:
         sig = forged_sig.evaluated()
